@@ -2034,6 +2034,171 @@ mod assumed_contracts {
     }
 }
 
+/// Second round of oracle cases: memory layouts, large common locations, integer element types, statistics read in the
+/// middle of a run, many chains, re-seeding a used proposal, steep gradients.
+mod round2 {
+    use super::*;
+    fn witness(s: String) -> ! {
+        println!("WITNESS {s}");
+        panic!("{s}");
+    }
+    fn lcg_chains(n_chains: usize, n: usize, phi: f64, salt: u64) -> Vec<Vec<f64>> {
+        (0..n_chains).map(|c| {
+            let (mut st, mut l) = (0.4 * c as f64, 99991u64 + salt + 31 * c as u64);
+            (0..n).map(|_| { l = l.wrapping_mul(6364136223846793005).wrapping_add(1442695040888963407); st = phi * st + ((l >> 11) as f64 / (1u64 << 53) as f64) - 0.5; st }).collect()
+        }).collect()
+    }
+    /// C11 / C12: the diagnostics take any view: its memory layout does not matter; a large common location does not matter
+    #[test]
+    fn oracle_c11_c12_layout_and_location() {
+        use mini_mcmc::stats::split_rhat_mean_ess;
+        use ndarray::ShapeBuilder;
+        for (n_chains, n, n_params) in [(3usize, 40usize, 2usize), (2, 260, 3), (4, 101, 1)] {
+            let val = |c: usize, t: usize, p: usize| lcg_chains(n_chains, n, 0.5, p as u64)[c][t] as f32 + 1.5 * c as f32 * p as f32;
+            let table: Vec<Vec<Vec<f32>>> = (0..n_chains).map(|c| (0..n).map(|t| (0..n_params).map(|p| val(c, t, p)).collect()).collect()).collect();
+            let std_arr = ndarray::Array3::from_shape_fn((n_chains, n, n_params), |(c, t, p)| table[c][t][p]);
+            let (r0, e0) = split_rhat_mean_ess(std_arr.view());
+            let fortran = ndarray::Array3::from_shape_fn((n_chains, n, n_params).f(), |(c, t, p)| table[c][t][p]);
+            let draw_major = ndarray::Array3::from_shape_fn((n, n_chains, n_params), |(t, c, p)| table[c][t][p]);
+            for (what, view) in [("fortran order", fortran.view()), ("permuted axes", draw_major.view().permuted_axes([1, 0, 2]))] {
+                let (r1, e1) = split_rhat_mean_ess(view);
+                for p in 0..n_params {
+                    if !((r1[p] - r0[p]).abs() <= 1e-4 * r0[p].abs()) || !((e1[p] - e0[p]).abs() <= 1e-3 * e0[p].abs()) {
+                        witness(format!("{{\"oracle\":\"c11\",\"layout\":\"{what}\",\"chains\":{n_chains},\"draws\":{n},\"param\":{p},\"what\":\"R-hat {} / ESS {} but the same values in standard layout give {} / {}\"}}", r1[p], e1[p], r0[p], e0[p]));
+                    }
+                }
+            }
+            // common location: values around 2048 and 8192 with unit-order spread (the shift is exact in f32)
+            for shift in [2048.0f32, 8192.0] {
+                let shifted = std_arr.mapv(|x| (x * 4.0).round() / 4.0 + shift);
+                let base = std_arr.mapv(|x| (x * 4.0).round() / 4.0);
+                let (rb, eb) = split_rhat_mean_ess(base.view());
+                let (rs, es) = split_rhat_mean_ess(shifted.view());
+                for p in 0..n_params {
+                    let (tb, ts) = (1.0 / eb[p] as f64, 1.0 / es[p] as f64);
+                    if !((rs[p] - rb[p]).abs() <= 2e-2 * rb[p].abs()) {
+                        witness(format!("{{\"oracle\":\"c11\",\"shift\":{shift},\"chains\":{n_chains},\"draws\":{n},\"param\":{p},\"what\":\"R-hat {} after adding {shift} to every draw, {} before\"}}", rs[p], rb[p]));
+                    }
+                    if !((ts - tb).abs() <= 0.1 * tb.abs() + 1e-4) {
+                        witness(format!("{{\"oracle\":\"c12\",\"shift\":{shift},\"chains\":{n_chains},\"draws\":{n},\"param\":{p},\"what\":\"ESS {} after adding {shift} to every draw, {} before\"}}", es[p], eb[p]));
+                    }
+                }
+            }
+        }
+    }
+    /// C13: integer element types, statistics read in the middle of a run with repeated states, many chains
+    #[test]
+    fn oracle_c13_element_types_midrun_reads_many_chains() {
+        use mini_mcmc::stats::{collect_rhat, ChainStats, ChainTracker, MultiChainTracker};
+        // integer states whose squares do not fit the element type
+        let (n_chains, n) = (3usize, 40usize);
+        let ival = |c: usize, t: usize| -> i16 { 200 + 40 * c as i16 + ((t * 7 + c * 3) % 11) as i16 };
+        let mut multi = MultiChainTracker::new(n_chains, 1);
+        let mut trackers: Vec<ChainTracker> = (0..n_chains).map(|c| ChainTracker::new(1, &[ival(c, 0)])).collect();
+        let res = std::panic::catch_unwind(move || {
+            for t in 0..n {
+                let flat: Vec<i16> = (0..n_chains).map(|c| ival(c, t)).collect();
+                for c in 0..n_chains { trackers[c].step(&[ival(c, t)]).unwrap(); }
+                multi.step(&flat).unwrap();
+            }
+            let stats: Vec<ChainStats> = trackers.iter().map(|t| t.stats()).collect();
+            let refs: Vec<&ChainStats> = stats.iter().collect();
+            (collect_rhat(&refs)[0], multi.rhat().unwrap()[0])
+        });
+        match res {
+            Err(_) => witness("{\"oracle\":\"c13\",\"element_type\":\"i16\",\"what\":\"a tracker update panicked on integer states of a few hundred\"}".to_string()),
+            Ok((a, b)) => {
+                if !((a - b).abs() <= 2e-3 * a.abs()) || !(a > 1.5) {
+                    witness(format!("{{\"oracle\":\"c13\",\"element_type\":\"i16\",\"collect_rhat\":{a},\"multi_chain_tracker\":{b},\"what\":\"the two R-hat computations disagree on integer states (or are not the R-hat of well separated chains)\"}}"));
+                }
+            }
+        }
+        // statistics read after every update, with runs of repeated states in between
+        let seq: Vec<f64> = vec![1.0, 1.0, 1.0, 2.5, 2.5, -0.5, -0.5, -0.5, -0.5, 3.0, 3.0, 0.25, 4.0, 4.0, 4.0, 4.0, -2.0];
+        let mut tr = ChainTracker::new(1, &[seq[0]]);
+        for k in 0..seq.len() {
+            tr.step(&[seq[k]]).unwrap();
+            let st = tr.stats();
+            let xs = &seq[..=k];
+            let mean = xs.iter().sum::<f64>() / xs.len() as f64;
+            if xs.len() >= 2 {
+                let var = xs.iter().map(|x| (x - mean) * (x - mean)).sum::<f64>() / (xs.len() as f64 - 1.0);
+                if !((st.sm2[0] as f64 - var).abs() <= 1e-4 * (1.0 + var)) || !((st.mean[0] as f64 - mean).abs() <= 1e-5 * (1.0 + mean.abs())) || st.n != (k + 1) as u64 {
+                    witness(format!("{{\"oracle\":\"c13\",\"updates\":{},\"what\":\"statistics read after every update: count {} mean {} variance {} but the fed states have mean {mean} and unbiased variance {var}\"}}", k + 1, st.n, st.mean[0], st.sm2[0]));
+                }
+            }
+        }
+        // many chains that always move: the acceptance figure is the moving average folded over the chains, never above 1
+        for n_chains in [2usize, 16] {
+            let mut multi = MultiChainTracker::new(n_chains, 2);
+            let mut want = 0.0f64;
+            for t in 0..400 {
+                let flat: Vec<f64> = (0..n_chains * 2).map(|i| t as f64 + 0.001 * i as f64 + 1.0).collect();
+                multi.step(&flat).unwrap();
+                for _ in 0..n_chains { want = 0.99 * want + 0.01; }
+                let p = multi.p_accept as f64;
+                if !(0.0..=1.0).contains(&p) || (p - want).abs() > 1e-3 {
+                    witness(format!("{{\"oracle\":\"c13\",\"chains\":{n_chains},\"updates\":{},\"what\":\"acceptance figure {p}; the moving average (weight 0.01) of the state-changed indicators is {want}\"}}", t + 1));
+                }
+            }
+        }
+    }
+    /// C15: re-seeding a proposal that was already used gives the stream of a fresh one; gradients at steep points
+    #[test]
+    fn oracle_c15_reseeding_and_steep_gradients() {
+        use burn::backend::{Autodiff, NdArray};
+        use burn::tensor::{Tensor, TensorData};
+        use mini_mcmc::distributions::{DiffableGaussian2D, GradientTarget, Rosenbrock2D};
+        for used in [1usize, 3, 7, 40] {
+            let from = vec![0.5f64, -1.0, 2.0];
+            let mut a = IsotropicGaussian::<f64>::new(0.7).set_seed(1);
+            for _ in 0..used { let _ = a.sample(&from); }
+            let mut a = a.set_seed(99);
+            let mut b = IsotropicGaussian::<f64>::new(0.7).set_seed(99);
+            for k in 0..50 {
+                let (x, y) = (a.sample(&from), b.sample(&from));
+                if x != y {
+                    witness(format!("{{\"oracle\":\"c15\",\"draws_before_reseeding\":{used},\"draw\":{k},\"what\":\"a proposal re-seeded after use draws {x:?}, a fresh proposal with the same seed draws {y:?}\"}}"));
+                }
+            }
+        }
+        type B = Autodiff<NdArray<f64>>;
+        let t1 = |v: &[f64]| Tensor::<B, 1>::from_data(TensorData::new(v.to_vec(), [v.len()]), &Default::default());
+        let r = Rosenbrock2D { a: 1.0f64, b: 100.0f64 };
+        for x in [[30.0f64, 0.0], [-25.0, 700.0], [3.0, 9.0], [60.0, -10.0]] {
+            let (_lp, g) = <Rosenbrock2D<f64> as GradientTarget<f64, B>>::unnorm_logp_and_grad(&r, t1(&x));
+            let g = g.to_data().to_vec::<f64>().unwrap();
+            let want = [2.0 * (1.0 - x[0]) + 400.0 * x[0] * (x[1] - x[0] * x[0]), -200.0 * (x[1] - x[0] * x[0])];
+            for k in 0..2 {
+                if !((g[k] - want[k]).abs() <= 1e-6 * (1.0 + want[k].abs())) {
+                    witness(format!("{{\"oracle\":\"c15\",\"x\":{x:?},\"what\":\"Rosenbrock gradient {g:?} but the gradient of the returned log-density is {want:?}\"}}"));
+                }
+            }
+        }
+        let dg = DiffableGaussian2D::new([0.0f64, 0.0], [[1e-8, 0.0], [0.0, 1e-8]]);
+        let (_lp, g) = <DiffableGaussian2D<f64> as GradientTarget<f64, B>>::unnorm_logp_and_grad(&dg, t1(&[0.5, -0.25]));
+        let g = g.to_data().to_vec::<f64>().unwrap();
+        if !((g[0] + 0.5e8).abs() <= 1e-3 * 0.5e8 && (g[1] - 0.25e8).abs() <= 1e-3 * 0.25e8) {
+            witness(format!("{{\"oracle\":\"c15\",\"what\":\"gradient of a narrow Gaussian at distance 0.5: {g:?}, true (-5e7, 2.5e7)\"}}"));
+        }
+        // small-scale covariances: value at the mean is -ln(2 pi) - 1/2 ln det
+        for v in [2e-6f64, 1e-4, 3.0] {
+            let cov = [[v, 0.0], [0.0, 1.5 * v]];
+            let d = DiffableGaussian2D::new([1.0f64, -1.0], cov);
+            let lp = <DiffableGaussian2D<f64> as GradientTarget<f64, B>>::unnorm_logp(&d, t1(&[1.0, -1.0])).to_data().to_vec::<f64>().unwrap()[0];
+            let want = -(2.0 * std::f64::consts::PI).ln() - 0.5 * (1.5 * v * v).ln();
+            if !((lp - want).abs() <= 1e-5 * (1.0 + want.abs())) {
+                witness(format!("{{\"oracle\":\"c15\",\"variance\":{v},\"what\":\"log-density at the mean {lp}, definition gives {want}\"}}"));
+            }
+            let d32 = DiffableGaussian2D::new([1.0f32, -1.0], [[v as f32, 0.0], [0.0, 1.5 * v as f32]]);
+            let want32 = -(2.0 * std::f64::consts::PI).ln() - 0.5 * ((v as f32 as f64) * (1.5 * v as f32) as f64).ln();
+            if !((d32.norm_const as f64 - want32).abs() <= 2e-4 * (1.0 + want32.abs())) {
+                witness(format!("{{\"oracle\":\"c15\",\"variance\":{v},\"what\":\"f32 normalising constant {}, definition gives {want32}\"}}", d32.norm_const));
+            }
+        }
+    }
+}
+
 /// Seeded random exploration on the real code (bounded): a few hundred random cases per run in the quick tier, twenty times as
 /// many in the thorough tier (`VERIF_TIER=thorough`), reproducible from `VERIF_SEED`.
 mod explore {
